@@ -112,9 +112,9 @@ def r_route(ctx, cfg, method, table, pname, R):
             elif "dyn app::CosmosRouter" in s:
                 good = is_param(o, "self")
             elif s.endswith("dyn cosmwasm_std::Querier"):
-                po = peel(o)
-                good = po[0] == "call" and po[1] == "app::Router::querier" and is_param(po[2][0], "self") and is_param(po[2][1], "api") and \
-                    is_param(po[2][2], "storage") and is_param(po[2][3], "block")
+                rq = q.router_querier(o)
+                good = rq is not None and is_param(rq["router"], "self") and is_param(rq["api"], "api") and \
+                    is_param(rq["storage"], "storage") and is_param(rq["block_info"], "block")
             elif s == "cosmwasm_std::Addr":
                 good = is_param(o, "sender")
             else:
@@ -161,7 +161,7 @@ def r3(ctx, cfg):
            sample="SystemResult::Ok(router.query(..).into())")
     ctx.ob(R, key, "no-dropped-result", not dropped_results(f), "a result is dropped in raw_query", fn=f, sample="none")
     # a request that cannot be parsed is an InvalidRequest error, not silently answered
-    errs = [st for b, i, st in f.stmts() if st["k"] == "assign" and st["rv"].get("k") == "aggregate" and st["rv"].get("adt") == "cosmwasm_std::SystemError"]
+    errs = [st for g in F.lexical(key) for b, i, st in g.stmts() if st["k"] == "assign" and st["rv"].get("k") == "aggregate" and st["rv"].get("adt") == "cosmwasm_std::SystemError"]
     ctx.ob(R, key, "unparsable-request-is-an-error", len(errs) == 1 and errs[0]["rv"]["variant"] == "InvalidRequest", "expected an InvalidRequest error for parse failures", fn=f,
            sample="SystemError::InvalidRequest")
 
